@@ -1,4 +1,5 @@
 import SignaloModel.Driver.Filters
+import SignaloModel.Driver.Floats
 import SignaloModel.Model.Pipes
 import SignaloModel.Model.PipesSink
 /-!
@@ -431,7 +432,7 @@ def step (d : DState) (line : String) : DState × List String :=
   match toks with
   | ["case", n] =>
     let out := closeCase d
-    ({ d with insts := [], srcs := [], sinks := [], pipes := [], caseNo := n.toNat?.getD (d.caseNo + 1),
+    ({ d with insts := [], srcs := [], sinks := [], pipes := [], f64s := [], f32s := [], caseNo := n.toNat?.getD (d.caseNo + 1),
               flags := [], caseOps := 0 }, out)
   | _ =>
     match stepPipeOp d op toks impl with
@@ -441,6 +442,9 @@ def step (d : DState) (line : String) : DState × List String :=
     | some r => r
     | none =>
     match stepSinkOp d op toks impl with
+    | some r => r
+    | none =>
+    match stepFloatOp d op toks impl with
     | some r => r
     | none =>
     match stepFilterOp d op toks impl with
